@@ -219,4 +219,9 @@ size_t SlurpUntilShortRead(FILE* f, char* out, size_t cap) {
   return size;
 }
 
+// --- E1 control: a conversion that throws on text that is not a number --------------------------------
+int ThrowingConversion(const std::string& field_from_file) {
+  return std::stoi(field_from_file);
+}
+
 }  // namespace nvctl
